@@ -189,11 +189,14 @@ def record_mbt(vh, seed, chunks, traces_per_chunk, depth, out_dir, wd, keep_ever
                         continue
                     o.write(json.loads(ln.strip()[len('<<"BEHAVIOUR", '):-2]) + '\n'); n += 1
         if n == 0:
-            raise Infra('TLC simulation produced no behaviour:\n' + r['stdout'][-1500:])
+            return None
         tf = os.path.join(out_dir, 'script-%d-%d.ndjson' % (seed, c))
         rr = sh([vh, 'script', '-in', bf, '-runs', '0', '-out', tf], timeout=1800)
         if rr.returncode != 0:
             raise Infra('script driver failed: ' + rr.stdout[-1500:])
         return tf, bf, n
     with ThreadPoolExecutor(max_workers=NCPU) as ex:
-        return list(ex.map(one, range(chunks)))
+        res = [r for r in ex.map(one, range(chunks)) if r]
+    if not res:
+        raise Infra('TLC simulation produced no behaviour at all')
+    return res
